@@ -17,6 +17,8 @@ pub mod c12;
 #[cfg(feature = "utf16")]
 pub mod c14;
 pub mod c15;
+#[cfg(feature = "pattern")]
+pub mod c20;
 pub mod c16;
 pub mod c17;
 pub mod c18;
@@ -38,6 +40,8 @@ pub fn run(cfg: &Cfg, rep: &mut Report) -> Result<(), String> {
         #[cfg(feature = "utf16")]
         "c14" => c14::run(cfg, rep),
         "c15" => c15::run(cfg, rep),
+        #[cfg(feature = "pattern")]
+        "c20" => c20::run(cfg, rep),
         "c16" => c16::run(cfg, rep),
         "c17" => c17::run(cfg, rep),
         "c18" => c18::run(cfg, rep),
